@@ -159,7 +159,7 @@ fn segchange<const N: usize>() {
     }
 }
 
-// verif: prop=C13 tier=quick cap=1500 bound="every 68-byte standard path (<= 2 segments, <= 4 hop fields), arbitrary interface table" fns="StandardValidator::validate_segment_change via handle_standard_path" stubs="tracing dispatcher -> none; MACs ignored"
+// verif: prop=C13 tier=thorough cap=3000 bound="every 68-byte standard path (<= 2 segments, <= 4 hop fields), arbitrary interface table" fns="StandardValidator::validate_segment_change via handle_standard_path" stubs="tracing dispatcher -> none; MACs ignored"
 #[kani::proof]
 #[kani::unwind(8)]
 #[kani::stub(tracing::dispatcher::get_default, stub_get_default)]
@@ -416,4 +416,142 @@ fn crossover_shortcut() {
 #[kani::stub(tracing::callsite::DefaultCallsite::register, stub_register)]
 fn c13_crossover_shortcut() {
     crossover_shortcut()
+}
+
+// ------------------------------------------------------------------ reference router (one AS step)
+/// Verdict of one AS on a standard path per the SCION data-plane rules, written from the header
+/// format and the forwarding rules only (MAC check off, router-alert flags clear):
+/// Some(Ok(e)) = forward on interface e, Some(Err(())) = deliver locally, None = refuse.
+fn ref_step(b: &[u8], arrive: u16, now: u32, t: &Table) -> Option<Result<u16, ()>> {
+    let meta = u32::from_be_bytes([b[0], b[1], b[2], b[3]]);
+    let (ci, ch) = ((meta >> 30) as usize, ((meta >> 24) & 0x3f) as usize);
+    let s = [((meta >> 12) & 0x3f) as usize, ((meta >> 6) & 0x3f) as usize, (meta & 0x3f) as usize];
+    let infos = (s[0] > 0) as usize + (s[1] > 0) as usize + (s[2] > 0) as usize;
+    let hops = s[0] + s[1] + s[2];
+    // segment of the current hop field (segments as laid out: zero-length ones hold no hop)
+    let (seg, start, end) = if ch < s[0] {
+        (0, 0, s[0])
+    } else if ch < s[0] + s[1] {
+        (1, s[0], s[0] + s[1])
+    } else if ch < hops {
+        (2, s[0] + s[1], hops)
+    } else {
+        return None;
+    };
+    if end - start == 1 || seg != ci {
+        return None;
+    }
+    let inf = |i: usize| -> (bool, u32) {
+        let o = 4 + 8 * i;
+        (b[o] & 1 == 1, u32::from_be_bytes([b[o + 4], b[o + 5], b[o + 6], b[o + 7]]))
+    };
+    let hop = |k: usize| -> (u8, u16, u16) {
+        let o = 4 + 8 * infos + 12 * k;
+        (b[o + 1], u16::from_be_bytes([b[o + 2], b[o + 3]]), u16::from_be_bytes([b[o + 4], b[o + 5]]))
+    };
+    let valid_at = |ts: u32, exp: u8| -> bool {
+        let life = ((exp as u64 + 1) * 675) / 2; // (ExpTime + 1) * 337.5 s
+        let expiry = core::cmp::min(ts as u64 + life, u32::MAX as u64) as u32;
+        ts <= now && now <= expiry
+    };
+    if ci >= infos {
+        return None;
+    }
+    let (cons, ts) = inf(ci);
+    let (exp, cin, ceg) = hop(ch);
+    let (in_if, out_if) = if cons { (cin, ceg) } else { (ceg, cin) };
+    // the packet must have come in by the interface its current hop field names
+    if arrive != 0 && in_if != 0 && in_if != arrive {
+        return None;
+    }
+    if !valid_at(ts, exp) {
+        return None;
+    }
+    let last = ch + 1 == hops;
+    let seg_end = ch + 1 == end;
+    if last {
+        return Some(Err(())); // seg_end holds as well
+    }
+    let out = if !seg_end {
+        out_if
+    } else {
+        // segment change: the next segment's first hop field gives the way out
+        let ni = seg + 1;
+        if ni >= infos {
+            return None;
+        }
+        let (ncons, nts) = inf(ni);
+        let (nexp, ncin, nceg) = hop(ch + 1);
+        let nout = if ncons { nceg } else { ncin };
+        let a = t.lookup(in_if).map(|s| s.link_type);
+        let bb = t.lookup(nout).map(|s| s.link_type);
+        use AsRoutingLinkType::*;
+        let allowed = matches!(
+            (a, bb),
+            (Some(LinkToCore), Some(LinkToChild))
+                | (Some(LinkToChild), Some(LinkToCore))
+                | (Some(LinkToChild), Some(LinkToChild))
+                | (Some(LinkToChild), Some(LinkToPeer))
+                | (Some(LinkToPeer), Some(LinkToChild))
+        );
+        if !allowed || !valid_at(nts, nexp) {
+            return None;
+        }
+        // the hop field the packet leaves by must belong to the segment the info pointer moves
+        // to (a zero-length middle segment breaks that) and must not end its segment or the path
+        let (nseg, nend) = if ch + 1 < s[0] { (0, s[0]) } else if ch + 1 < s[0] + s[1] { (1, s[0] + s[1]) } else { (2, hops) };
+        if nseg != ni || ch + 2 >= hops || ch + 2 == nend {
+            return None;
+        }
+        nout
+    };
+    match t.lookup(out) {
+        Some(st) if st.is_up => Some(Ok(out)),
+        _ => None,
+    }
+}
+
+fn ref_router_step<const N: usize>() {
+    let ingress: u16 = kani::any();
+    let now: u32 = kani::any();
+    let t = Table::any();
+    let mut buf: [u8; N] = kani::any();
+    let orig = buf;
+    let key = [0u8; 16];
+    let lookup = |id: u16| t.lookup(id);
+    let Ok((path, _)) = StandardPathView::try_from_mut_slice(&mut buf[..]) else { return };
+    // router-alert flags clear on every hop field (SCMP alert handling is not part of the reference)
+    let hops = path.hop_field_count() as usize;
+    let infos = path.info_field_count() as usize;
+    let mut k = 0;
+    while k < 4 {
+        if k < hops {
+            kani::assume(orig[4 + 8 * infos + 12 * k] & 0x03 == 0);
+        }
+        k += 1;
+    }
+    let res = standard::StdRoutingLogic::handle_standard_path(
+        IsdAsn::from_u64(1), path, ingress, ScionNetworkTime(now), &key, &lookup, true);
+    let got = match res {
+        Ok(AsRoutingAction::ForwardNextHop { egress_interface_id }) => Some(Ok(egress_interface_id)),
+        Ok(AsRoutingAction::Local(LocalAsRoutingAction::ForwardLocal)) => Some(Err(())),
+        Ok(_) => {
+            assert!(false, "SCMP handling requested although no router-alert flag is set");
+            return;
+        }
+        Err(_) => None,
+    };
+    let want = ref_step(&orig, ingress, now, &t);
+    kani::cover!(matches!(got, Some(Ok(_))), "forwarded");
+    kani::cover!(got.is_none() && hops > 1, "refused");
+    assert!(got == want, "per-AS verdict differs from the reference router");
+}
+
+// verif: prop=C13 tier=quick cap=2400 bound="every 68-byte standard path with clear router-alert flags (<= 2 segments, <= 4 hop fields), arbitrary interface table, clock, arrival interface: forward(e) / deliver / refuse equals the reference router" fns="StdRoutingLogic::handle_standard_path and everything below it" stubs="tracing -> none; MACs ignored"
+#[kani::proof]
+#[kani::unwind(8)]
+#[kani::stub(tracing::dispatcher::get_default, stub_get_default)]
+#[kani::stub(tracing::callsite::DefaultCallsite::register, stub_register)]
+fn c13_ref_router_h4() {
+    ref_router_step::<{ path_bytes(2, 4) }>()
 }
